@@ -1,0 +1,29 @@
+//go:build verif
+
+package l1infotreesync
+
+import (
+	"context"
+
+	"github.com/agglayer/aggkit/sync"
+)
+
+// NewVerifC15Sync builds an L1InfoTreeSync that has the real processor (real SQLite store, real queries)
+// and no driver: blocks are fed by VerifC15ProcessBlock instead of being downloaded.
+func NewVerifC15Sync(dbPath string) (*L1InfoTreeSync, error) {
+	p, err := newProcessor(dbPath)
+	if err != nil {
+		return nil, err
+	}
+	return &L1InfoTreeSync{processor: p}, nil
+}
+
+// VerifC15ProcessBlock hands one block (with its Event values) to the real processor.
+func (s *L1InfoTreeSync) VerifC15ProcessBlock(ctx context.Context, b sync.Block) error {
+	return s.processor.ProcessBlock(ctx, b)
+}
+
+// VerifC15Close closes the store.
+func (s *L1InfoTreeSync) VerifC15Close() error {
+	return s.processor.db.Close()
+}
